@@ -12,7 +12,7 @@ import Lattigo.Model.PolyEval
     eval-ckks-lazy …                  same as eval (ckks, Lazy = true): needs the ckks MulThenAdd fix C06-6/7
     optional tokens of eval: inv=0|1 (bgv.Evaluator.ScaleInvariant), odd=0|1 even=0|1 (IsOdd/IsEven as
     set by the user), pre=<op,op,…>|- : EvaluateFromPowerBasis on a basis the caller filled with
-    g<n> / g<n>l (GenPower(n, lazy=false/true)) and f<n>:<level>:<scale> (fresh encryption of x^n)
+    g<n> / g<n>l (GenPower(n, lazy=false/true)), f<n>:<level>:<scale> (fresh encryption of x^n), d<n> (delete X^n)
 -/
 namespace Driver.C13
 open Driver
@@ -37,6 +37,7 @@ def parsePre (s : String) : Option (List PreOp) :=
     | 'g' :: body =>
       if body.getLast? == some 'l' then (parseNat? (String.ofList body.dropLast)).map fun n => PreOp.gen n true
       else (parseNat? (String.ofList body)).map fun n => PreOp.gen n false
+    | 'd' :: body => (parseNat? (String.ofList body)).map fun n => PreOp.del n
     | 'f' :: body =>
       match (String.ofList body).splitOn ":" with
       | [n, l, sc] => do
